@@ -152,8 +152,17 @@ void set_status_precision(int precision)
 /// Hence time will always be fairly small and there won't be any
 /// precision issues if we convert the time to double.
 ///
+#ifdef PRIMECOUNT_VERIF
+// Verification hook (H1): a harness may install a virtual clock.
+double (*verif_get_time_hook)() = nullptr;
+#endif
+
 double get_time()
 {
+#ifdef PRIMECOUNT_VERIF
+  if (verif_get_time_hook)
+    return verif_get_time_hook();
+#endif
   auto now = std::chrono::steady_clock::now();
   auto time = now.time_since_epoch();
   auto micro = std::chrono::duration_cast<std::chrono::microseconds>(time);
